@@ -153,6 +153,29 @@ def rule_constants(ck: Check, repo: Repo, folder: Folder) -> None:
             r.violation(f"{CD}._annotations_from_paragraphs", f"TOML key {key!r} not written",
                         f"the reader looks for {key!r} ({attr}) but the converter writes {sorted(written)}",
                         repo.loc(fn))
+    # the licence value: the WHOLE expression of the paragraph, in the spelling the dep5 reader itself uses
+    from ..rules import deep_text
+    lic_v = written.get("SPDX-License-Identifier")
+    lic_t = deep_text(fn, lic_v) if lic_v is not None else None
+    d5r = repo.func(f"{GL}.ReuseDep5.reuse_info_of")
+    reader_lic = [ast.unparse(kw.value) for c in ast.walk(d5r) if isinstance(c, ast.Call) for kw in c.keywords if kw.arg == "spdx_expressions"]
+    r.instance("licence-value", {"converter": lic_t, "dep5_reader": reader_lic})
+    helper_ok = False
+    if lic_t is not None and lic_t != "paragraph.license.to_str()":
+        # one level through a helper that returns the expression unchanged
+        m = re.fullmatch(r"(\w+)\(paragraph\)", lic_t)
+        hq = f"{CD}.{m.group(1)}" if m else None
+        if hq and hq in repo.functions:
+            h = repo.functions[hq]
+            hp = h.args.args[0].arg if h.args.args else "paragraph"
+            hr = [deep_text(h, n.value) for n in ast.walk(h) if isinstance(n, ast.Return) and n.value is not None]
+            helper_ok = hr in ([f"{hp}.license.to_str()"], [f"cast(str, {hp}.license.to_str())"])
+            lic_t = f"{lic_t} -> {hr}"
+    if lic_v is None or not (lic_t == "paragraph.license.to_str()" or helper_ok):
+        r.violation(f"{CD}._annotations_from_paragraphs", f"licence value is {lic_t}",
+                    "the converted table must carry the paragraph's complete licence expression (paragraph.license.to_str(), what the"
+                    " dep5 reader parses); anything cut out of it (first word, first line) changes the licensing of every file"
+                    " the paragraph covers", repo.loc(fn))
     prec = written.get("precedence")
     agg = folder._getattr(folder.known(GL, "PrecedenceType"), "AGGREGATE", fn, repo.module(GL))
     if not isinstance(agg, EnumMember):
